@@ -98,14 +98,6 @@ func HarnessC11a() {
 	verifAssert("C01.new.err", err == nil)
 	md := &symModel{}
 	buildAscending("build", base, md, N)
-	// PRE further symbolic inserts, anywhere in the key range and at any layer, before the base is
-	// persisted: nodes produced by splits in the middle of the tree keep spare capacity in their
-	// key/value arrays, which an ascending build never leaves in a left sibling
-	for i := 0; i < verifBoundOr("PRE", 0); i++ {
-		k, v := verifNondetKey("prek"), verifNondetVal("prev")
-		verifAssert("C01.pre.insert.err", base.Insert(vctx, symKey{k}, v) == nil)
-		md.put(k, v)
-	}
 	if hreq := verifBound("HREQ"); hreq >= 0 && int(base.Height()) != hreq {
 		verifAssume(false) // this run is restricted to base trees of the requested height
 	}
